@@ -65,7 +65,7 @@ def build(stream, p):
         call = enc_call(20, bits, gen.enc_acc(rows), v0, int(fast), 0, gen.enc_table(table), fuel)
 
         def run():
-            a = gen.counting(rows, 2 * fuel + 4)
+            a = gen.shared_view(rows) if (len(bits) + v0) % 4 == 0 else gen.counting(rows, 2 * fuel + 4)
             return dsw.encode(np.array(bits, dtype=int), a, v0, is_faster=fast, shuffles=tab)
         impl = lambda: guard(run, lambda r: [s2c(r), []])
         domain = gen.wellformed_from(rows, v0) and not (fast and cc.has_deg3(rows))
@@ -83,7 +83,7 @@ def build(stream, p):
                     tags=[p["kind"], "fast=%d" % fast, "table=%d" % (table is not None)])
     w, L = p["w"], p["L"]
     call = enc_call(21, s2c(w), L, gen.enc_acc(rows), v0, 0, [], gen.enc_table(table))
-    impl = lambda: guard(lambda: dsw.decode(w, L, gen.acc_array(rows, reuse=reuse), v0, shuffles=tab),
+    impl = lambda: guard(lambda: dsw.decode(w, L, gen.shared_view(rows) if (L + v0) % 4 == 0 else gen.acc_array(rows, reuse=reuse), v0, shuffles=tab),
                          lambda r: [[int(x) for x in r]])
 
     def oracle(ans, raw):
